@@ -16,8 +16,8 @@ def main(tier):
     work = vlib.scratch("c13")
     try:
         binp, _ = vlib.build_harness("nodex")
-        n = 4 if tier == "quick" else 5
-        cfg = vlib.cfg_text(constants={"N": str(n), "Stakes": "{1, 2}", "Caps": "{0, 1, 2, 3}"}, invariants=["Sane"])
+        n = 4  # 5 validators x 16 attribute combinations exceed TLC's limit for an enumerated set of initial states
+        cfg = vlib.cfg_text(constants={"N": str(n), "Stakes": "{1, 2}" if tier == "quick" else "{1, 2, 3}", "Caps": "{0, 1, 2, 3}"}, invariants=["Sane"])
         r = vlib.tlc(os.path.join(work, "design"), "Committee", cfg, workers=16, timeout=2400)
         if r.violated or not r.finished:
             raise vlib.Infra("Committee.tla design check failed: %s %s" % (r.violated, r.error))
